@@ -992,12 +992,22 @@ func (f *Frame) pureApply(c *Contract, fn *types.Func, recv Val, args []Val, st 
 	var sorts []string
 	if recv != nil && sig.Recv() != nil {
 		rt := sig.Recv().Type()
+		var t Term
 		if p, ok := recv.(PtrV); ok {
 			if _, isPtr := rt.Underlying().(*types.Pointer); !isPtr {
-				recv = in.load(st, p.To, f)
+				content := in.load(st, p.To, f)
+				if sc, isSc := content.(Sc); isSc && strings.HasPrefix(sc.T.Sort, "O_") && types.IsInterface(rt) {
+					// a pointer to a type declared opaque behind an interface receiver: the same
+					// reference term the pointer-receiver form of the getter sees
+					t = in.refOf(p)
+				} else {
+					recv = content
+				}
 			}
 		}
-		t := in.freeze(recv, rt, st, f)
+		if t.S == "" && t.Sort == "" {
+			t = in.freeze(recv, rt, st, f)
+		}
 		ts = append(ts, t)
 		sorts = append(sorts, t.Sort)
 	}
@@ -1052,6 +1062,16 @@ func (f *Frame) pureApply(c *Contract, fn *types.Func, recv Val, args []Val, st 
 			sel := Select(App(name, rs, vars...), jv)
 			body := Implies(Or(Lt(jv, IntLit(0)), Le(IntLit(at.Len()), jv)), Eq(sel, IntLit(0)))
 			in.D.declareOnce("ufcanon:"+name, fmt.Sprintf("(assert %s)", Forall(append(vars, jv), body, []Term{sel}).S))
+			// consequence (canonical + extensionality), stated so that the solvers need not find it:
+			// equal byte-string views of two results mean equal results
+			var vars2 []Term
+			for i, s := range sorts {
+				vars2 = append(vars2, Term{S: fmt.Sprintf("b%d", i), Sort: s})
+			}
+			s1 := App("mkstr", SStr, App(name, rs, vars...), IntLit(0), IntLit(at.Len()))
+			s2 := App("mkstr", SStr, App(name, rs, vars2...), IntLit(0), IntLit(at.Len()))
+			inj := Forall(append(append([]Term{}, vars...), vars2...), Implies(Eq(s1, s2), Eq(App(name, rs, vars...), App(name, rs, vars2...))), []Term{s1, s2})
+			in.D.declareOnce("ufcanoninj:"+name, fmt.Sprintf("(assert %s)", inj.S))
 		}
 		res = append(res, in.thaw(t, rt, f))
 	}
@@ -1220,7 +1240,22 @@ func (f *Frame) staticCallOrd(call *ast.CallExpr) int {
 
 // runAsserts proves and then assumes the `at call N assert` clauses of the contract.
 func (f *Frame) runAsserts(ord int, st *State, call *ast.CallExpr) {
-	if f.contract == nil || ord == 0 || st.dead {
+	if f.contract == nil || st.dead {
+		return
+	}
+	if len(f.contract.NamedOrd) > 0 && ord >= 0 {
+		name := ""
+		switch fn := ast.Unparen(call.Fun).(type) {
+		case *ast.Ident:
+			name = fn.Name
+		case *ast.SelectorExpr:
+			name = fn.Sel.Name
+		}
+		if n, ok := f.contract.NamedOrd[name]; ok && name != "" {
+			f.runAsserts(n, st, call)
+		}
+	}
+	if ord == 0 {
 		return
 	}
 	for _, name := range f.contract.Snapshots[ord] {
@@ -1241,7 +1276,15 @@ func (f *Frame) runAsserts(ord int, st *State, call *ast.CallExpr) {
 		}
 		env := f.specEnvAt(st, call.End())
 		goal := env.evalBool(a.E)
-		f.oblige(st, "assert", fmt.Sprintf("%s#call%d.assert:%d", f.key, ord, i+1), call.Pos(), goal, a.Text)
+		oname := fmt.Sprintf("%s#call%d.assert:%d", f.key, ord, i+1)
+		if ord < 0 {
+			for nm, n := range f.contract.NamedOrd {
+				if n == ord {
+					oname = fmt.Sprintf("%s#call@%s.assert:%d", f.key, nm, i+1)
+				}
+			}
+		}
+		f.oblige(st, "assert", oname, call.Pos(), goal, a.Text)
 		st.assume(goal)
 	}
 }
